@@ -17,6 +17,10 @@ import (
 	"strings"
 
 	sdk "github.com/cosmos/cosmos-sdk/types"
+	transfertypes "github.com/cosmos/ibc-go/v7/modules/apps/transfer/types"
+	channeltypes "github.com/cosmos/ibc-go/v7/modules/core/04-channel/types"
+	host "github.com/cosmos/ibc-go/v7/modules/core/24-host"
+	ibcexported "github.com/cosmos/ibc-go/v7/modules/core/exported"
 	"github.com/ethereum/go-ethereum/accounts/abi"
 	"github.com/ethereum/go-ethereum/common"
 	ethcrypto "github.com/ethereum/go-ethereum/crypto"
@@ -26,6 +30,8 @@ import (
 )
 
 var (
+	ics20ABI   abi.ABI
+	ics20PC    = common.HexToAddress("0x0000000000000000000000000000000000000802")
 	stakingABI abi.ABI
 	distrABI   abi.ABI
 	stakingPC  = common.HexToAddress(stakingprecompile.PrecompileAddress)
@@ -39,6 +45,7 @@ func init() {
 	}
 	// the distribution precompile exports no ABI loader: read the ABI of the tree under test
 	distrABI = loadRepoABI("precompiles/distribution/abi.json")
+	ics20ABI = loadRepoABI("precompiles/ics20/abi.json")
 }
 
 func repoRoot() string {
@@ -199,6 +206,10 @@ func (w *EvmWorld) pcCalldata(o Op, self common.Address) (common.Address, []byte
 	case "revoke":
 		bz, err := stakingABI.Pack("revoke", w.addrOf(o.Grantee, self), []string{stakingprecompile.DelegateMsg, stakingprecompile.UndelegateMsg})
 		return stakingPC, bz, err
+	case "ibcTransfer":
+		bz, err := ics20ABI.Pack("transfer", "transfer", "channel-0", "aISLM", amt, who, "haqq1receiveronotherside",
+			icsHeight{RevisionNumber: 1, RevisionHeight: 1_000_000}, uint64(0), "")
+		return ics20PC, bz, err
 	case "query":
 		// a read-only method: the precompile still flushes the StateDB before answering
 		bz, err := stakingABI.Pack("delegation", who, w.valStr(o.Val))
@@ -413,3 +424,35 @@ func normOp(o Op) Op {
 	o.OK = nil
 	return o
 }
+
+type icsHeight struct {
+	RevisionNumber uint64 `abi:"revisionNumber"`
+	RevisionHeight uint64 `abi:"revisionHeight"`
+}
+
+// OpenLoopbackChannel writes an OPEN ICS-20 channel transfer/channel-0 <-> transfer/channel-1 over the
+// localhost connection into the deliver state (scenario set-up; a real handshake needs a second chain).
+func OpenLoopbackChannel(n *Node) {
+	ctx := n.Ctx()
+	app := n.App
+	ck := app.IBCKeeper.ChannelKeeper
+	for _, pair := range [][2]string{{"channel-0", "channel-1"}, {"channel-1", "channel-0"}} {
+		ch := channeltypes.NewChannel(channeltypes.OPEN, channeltypes.UNORDERED, channeltypes.NewCounterparty("transfer", pair[1]),
+			[]string{ibcexported.LocalhostConnectionID}, "ics20-1")
+		ck.SetChannel(ctx, "transfer", pair[0], ch)
+		ck.SetNextSequenceSend(ctx, "transfer", pair[0], 1)
+		ck.SetNextSequenceRecv(ctx, "transfer", pair[0], 1)
+		ck.SetNextSequenceAck(ctx, "transfer", pair[0], 1)
+		path := host.ChannelCapabilityPath("transfer", pair[0])
+		cp, err := app.ScopedIBCKeeper.NewCapability(ctx, path)
+		if err != nil {
+			panic(err)
+		}
+		if err := app.ScopedTransferKeeper.ClaimCapability(ctx, cp, path); err != nil {
+			panic(err)
+		}
+	}
+}
+
+// IcsEscrow is the escrow account of transfer/channel-0.
+func IcsEscrow() sdk.AccAddress { return transfertypes.GetEscrowAddress("transfer", "channel-0") }
